@@ -1,4 +1,6 @@
 """C11 — each UDP packet ID is accepted at most once (use-site clauses + constant relations; DESIGN.md 4/C11)."""
+import re
+
 from ..mir import Callee, last_seg, loc, op_int, op_place
 from .common import gates_of_value, returns_variant, ok_some_blocks
 
@@ -73,9 +75,20 @@ def _shallow_components(b, local, depth=0):
     return sorted(set(out))
 
 
+def filter_type(prog):
+    """the replay window type, by role: a struct with a ring of u64 words (`[u64; N]`) and a u64 high-water mark (whatever it is called,
+    wherever it lives). Returns (def path, last segment)."""
+    c = [it for it in prog.items if it["k"] == "struct" and any(re.match(r"^\[u64; .+\]$", fty.strip()) for (_, fty) in it["fields"])
+         and any(fty.strip() == "u64" for (_, fty) in it["fields"]) and "::test" not in it["path"]]
+    named = [it for it in c if last_seg(it["path"]) == "PacketWindowFilter"]
+    it = (named or c or [None])[0]
+    return (it["path"], last_seg(it["path"])) if it else (None, "PacketWindowFilter")
+
+
 def filter_fn(prog):
     """the replay filter's verdict function, by role: the public method of the window-filter type that takes ids and returns bool"""
-    c = [b for b in prog.prod_bodies() if (b.impl_self_def or "").endswith("PacketWindowFilter") and b.root == b.defp and b.local_ty(0) == "bool"
+    fpath, fname = filter_type(prog)
+    c = [b for b in prog.prod_bodies() if (b.impl_self_def or "") == fpath and b.root == b.defp and b.local_ty(0) == "bool"
          and b.argc >= 2 and b.local_ty(2) == "u64"]
     pub = [b for b in c if b.j.get("vis") == "Public"]
     return pub or c
@@ -97,6 +110,10 @@ def filter_roles(prog):
 
 def run(ctx):
     prog = ctx.prog
+    FT_PATH, FT = filter_type(prog)
+    if FT_PATH is None:
+        ctx.anchor_lost("F3", "replay window type (struct with a [u64; N] ring and a u64 mark)")
+        return
     ff, fpaths, wrappers = filter_roles(prog)
     ctx.floor("F4", "replay filter function", 1, len(ff))
 
@@ -174,15 +191,15 @@ def run(ctx):
     # F3 ownership
     holders = []
     for it in prog.items:
-        if it["k"] == "struct" and not it["path"].endswith("PacketWindowFilter"):
+        if it["k"] == "struct" and it["path"] != FT_PATH:
             for (fname, fty) in it["fields"]:
-                if "PacketWindowFilter" in fty:
+                if re.search(r"\b" + re.escape(FT) + r"\b", fty):
                     holders.append((it, fname, fty))
-        if it["k"] == "static" and "PacketWindowFilter" in it.get("ty", ""):
+        if it["k"] == "static" and re.search(r"\b" + re.escape(FT) + r"\b", it.get("ty", "")):
             ctx.ob("F3", it["path"], "filter-not-static", loc(it["sp"]), False, "a replay filter lives in a static: shared by all sessions")
     ctx.floor("F3", "per-session objects holding a filter", 2, len(holders))
     for (it, fname, fty) in holders:
-        ok = fty.endswith("PacketWindowFilter") and not any(k in fty for k in ("Arc<", "Mutex<", "Rc<", "RefCell<", "&"))
+        ok = fty.endswith(FT) and not any(k in fty for k in ("Arc<", "Mutex<", "Rc<", "RefCell<", "&"))
         ctx.ob("F3", it["path"], f"field:{fname}:owned-plain", loc(it["sp"]), ok, f"field type {fty}", ordinal=False)
         # constructed fresh wherever the holder is constructed
         ctors = []
@@ -196,14 +213,14 @@ def run(ctx):
                         fresh = False
                         if p is not None:
                             _, calls, _ = b.slice_back([p[0]])
-                            fresh = any(cc.name in ("PacketWindowFilter::new", "Default::default") for (_, cc, _) in calls) and \
+                            fresh = any(cc.name in (FT + "::new", "Default::default") for (_, cc, _) in calls) and \
                                 not any(cc.name == "Clone::clone" for (_, cc, _) in calls)
                         ctors.append((b, s, fresh))
         # F3b the filter of a live session is never cleared or replaced: outside the functions that construct the holder, the field is not
         # assigned as a whole and no state-clearing method of the filter (a `&mut self` method without an id argument) is called on it
         ctor_fns = {b.defp for (b, _, _) in ctors}
         for b in prog.prod_bodies():
-            if b.defp in ctor_fns or (b.impl_self_def or "").endswith("PacketWindowFilter"):
+            if b.defp in ctor_fns or (b.impl_self_def or "") == FT_PATH:
                 continue
             for blk in b.rpo():
                 for s in b.stmts(blk):
@@ -215,7 +232,7 @@ def run(ctx):
                                    f"the per-session replay filter (`{fname}`) is replaced with a new one in a live session: the ids accepted so far are forgotten, "
                                    "so a datagram that was already delivered (or lies behind the window) is accepted again")
             for (blk, c, t) in b.calls():
-                if (c.self_def or "").endswith("PacketWindowFilter") and c.target not in fpaths and t["args"]:
+                if (c.self_def or "") == FT_PATH and c.target not in fpaths and t["args"]:
                     cb = prog.body(c.target)
                     clears = cb is not None and cb.argc == 1 and cb.local_ty(1).startswith("&mut") and cb.local_ty(0) == "()"
                     if clears and (b.defp, blk) not in ctx.__dict__.setdefault("_f3_seen", set()):
